@@ -28,12 +28,29 @@ class T:
 
 
 def mk(op, *args):
+    if op == "array" and args and _is_le_limbs(args):
+        return mk("le_u64_limbs", args[0].args[0].args[0])
     key = (op, args)
     t = _TABLE.get(key)
     if t is None:
         t = T(op, args)
         _TABLE[key] = t
     return t
+
+
+def _is_le_limbs(args):
+    b = None
+    for i, a in enumerate(args):
+        if not (isinstance(a, T) and a.op == "u64_of_le_bytes" and a.args[0].op == "chunk"):
+            return False
+        ch = a.args[0]
+        if ch.args[1] != 8 or ch.args[2] != i:
+            return False
+        if b is None:
+            b = ch.args[0]
+        elif ch.args[0] is not b:
+            return False
+    return True
 
 
 def show(t, depth=0, maxdepth=9):
